@@ -457,6 +457,8 @@ class Gen:
             if c["op"] in ("ufunc2", "where"):
                 est = max(est, result_size_guess([o["shape"] for o in c["args"]], [o["k"] for o in c["args"]]))
             if est <= self.cap:
+                if scalable(c) and rng.random() < 0.12:
+                    c = scale_case(c, rng.choice(SCALE_EXPONENTS))
                 c["id"] = cid
                 c["coll"] = self.coll
                 return c
@@ -604,9 +606,101 @@ def directed_cases():
             C.append({"op": "inplace", "code": code, "args": [fe([2, 2, 2, 2]), y]})
             for ok in ("fe", "plain"):
                 C.append({"op": "out", "code": code, "args": [fe([2, 2, 2, 2]), y], "out_shape": [2, 2, 2, 2], "out_kind": ok})
+    C += dtype_cases()
+    # SCALED TWINS (micro-/nano-scale Jacobians, huge moduli): the same matrices times 2**e.  Det must
+    # scale by 2**(n e), Inv by 2**(-e), Norm by 2**e, Normalize not at all -- exactly
+    twins = []
+    for idx, c in enumerate(C):
+        if c["op"] in ("Det", "Inv", "Trace", "linalg", "Norm", "Normalize") or \
+                (c["op"] in ("TensorProd", "matmul", "ddot") and idx % 9 == 0):
+            for e in SCALE_EXPONENTS:
+                if (c["op"] in ("Det", "Inv", "linalg") and e != -30) or (c["op"] not in ("Det", "Inv", "linalg") and e == -30):
+                    twins.append(scale_case(c, e))
+    C += twins
     for i, c in enumerate(C):
         c["coll"] = True
     return C
+
+
+def dtype_cases():
+    """dtype preservation (oracle-only family): int64 (also beyond 2**53), float32, complex128
+    operands on either side of the operators and through the constructor paths"""
+    C = []
+    big = 2 ** 53 + 1
+
+    def arr(k, shape, dt, seed=0):
+        n = prod(shape)
+        if dt == "complex128":
+            data = [[(3 * i + seed) % 5 - 2, (2 * i + 1 + seed) % 7 - 3] for i in range(n)]
+        elif dt == "bigint":
+            data = [big + ((5 * i + seed) % 7) for i in range(n)]
+        else:
+            data = [(3 * i * i + 2 * i + 1 + seed) % 7 - 2 for i in range(n)]
+        return {"k": k, "shape": list(shape), "data": data, "dtype": "int64" if dt == "bigint" else dt}
+
+    def scal(dt):
+        return {"k": "scalar", "shape": [], "data": [[2, -3]] if dt == "complex128" else [big if dt == "bigint" else 3],
+                "dtype": "int64" if dt == "bigint" else dt}
+    for dt in ("int64", "bigint", "float32", "complex128"):
+        f = "float64"
+        for sub in ("add", "sub", "mul"):
+            if dt == "bigint" and sub == "mul":
+                continue                      # int64 overflow is numpy's own business
+            C.append({"op": "dtype", "sub": sub, "args": [arr("fe", [2, 2, 2], dt), arr("plain", [2], f, 1)]})
+            C.append({"op": "dtype", "sub": sub, "args": [arr("plain", [2], dt, 1), arr("fe", [2, 2, 2], f)]})
+            C.append({"op": "dtype", "sub": sub, "args": [arr("fe", [2, 2, 2], dt), arr("fe", [1, 2, 2], dt, 2)]})
+            C.append({"op": "dtype", "sub": sub, "args": [scal(dt), arr("fe", [2, 2, 2], f)]})
+            C.append({"op": "dtype", "sub": sub, "args": [arr("fe", [2, 2, 2], dt), scal("int64" if dt != "complex128" else dt)]})
+        if dt != "bigint":
+            C.append({"op": "dtype", "sub": "matmul", "args": [arr("fe", [2, 2, 2, 2], dt), arr("plain", [2], f, 1)]})
+            C.append({"op": "dtype", "sub": "matmul", "args": [arr("plain", [2, 2], dt, 1), arr("fe", [2, 2, 2], f)]})      # __rmatmul__
+            C.append({"op": "dtype", "sub": "matmul", "args": [arr("plain", [2, 2], dt, 1), arr("fe", [2, 2, 2, 2], dt)]})
+            C.append({"op": "dtype", "sub": "matmul", "args": [arr("fe", [2, 2, 2, 2], dt), arr("fe", [2, 1, 2, 2], dt, 3)]})
+            C.append({"op": "dtype", "sub": "dot", "args": [arr("fe", [2, 2, 2], dt), arr("fe", [2, 2, 2], dt, 4)]})
+            C.append({"op": "dtype", "sub": "Trace", "args": [arr("fe", [2, 2, 2, 2], dt)]})
+        for sub in ("T", "Transpose", "sum", "neg"):
+            C.append({"op": "dtype", "sub": sub, "args": [arr("fe", [2, 2, 2, 2], dt)]})
+        for sub in ("FeArray", "asfearray_bc"):
+            C.append({"op": "dtype", "sub": sub, "args": [arr("plain", [2, 2, 2], dt)]})
+            C.append({"op": "dtype", "sub": "asfearray_bc", "args": [arr("plain", [3], dt)]})
+    for c in C:
+        c["model"] = False
+    return C
+
+
+def scale_case(c, e):
+    """SCALED TWIN: every operand's data multiplied by 2**e (the same power of two for all operands,
+    so sums stay exact in floating point; products, determinants, inverses, norms then scale by
+    exact powers of two as well).  Values become dyadic rationals [n, 2**-e]."""
+    def sc(v):
+        n, d = (v if isinstance(v, list) else (v, 1))
+        if n == 0:
+            return 0
+        if e >= 0:
+            n = n * 2 ** e
+        else:
+            d = d * 2 ** (-e)
+        from math import gcd
+        g = gcd(abs(n), d)
+        n, d = n // g, d // g
+        return n if d == 1 else [n, d]
+    c = json.loads(json.dumps(c))
+    for o in c["args"]:
+        o["data"] = [sc(v) for v in o["data"]]
+    c["scale_exp"] = e
+    return c
+
+
+SCALE_EXPONENTS = (-60, -30, -20, 40)
+
+
+def scalable(c):
+    """families whose result is an exact power-of-two multiple of the unscaled result"""
+    if c["op"] == "reduce" and c["code"] == 1:
+        return False          # prod over many entries would underflow
+    if c["op"] == "where":
+        return True
+    return c["op"] not in ("broadcast",) or True
 
 
 def result_size_guess(shapes, kinds):
@@ -735,6 +829,8 @@ def case_key(c):
         extra = json.dumps(c["labels"]) + json.dumps(c["out"])
     elif c["op"] == "broadcast":
         extra = "td%d" % c["td"]
+    elif c["op"] == "dtype":
+        extra = c["sub"] + ":" + "/".join(o.get("dtype", "") for o in c["args"])
     elif c["op"] == "TensorProd":
         extra = "sym%s:nd%s" % (c["sym"], c.get("nd"))
     elif c["op"] in ("Norm", "Normalize", "concat", "stack"):
@@ -762,6 +858,8 @@ def violation_key(c):
         return "field-operator:%s:field-%s:other-%s" % (name, side, other)
     if op == "matmul" and kinds[0] in ("plain", "scalar") and kinds[1] == "fe":
         return "fearray-reflected-matmul:%s@fe" % kinds[0]
+    if op == "dtype":
+        return "dtype:%s:%s" % (c["sub"], "/".join("%s-%s" % (o["k"], o.get("dtype", "float64")) for o in c["args"]))
     if op == "Norm":
         nd = len(c["args"][0]["shape"])
         axl = None if c["axis"] is None else (c["axis"] if isinstance(c["axis"], list) else [c["axis"]])
@@ -796,23 +894,13 @@ import json, sys
 import numpy as np
 from corr import C12_impl as I
 case = json.loads(%(case)r)
-model = json.loads(%(model)r)      # what the Coq model evaluates to (kind, shape, values)
-try:
-    got = I.observe(I.run_case(case))
-except Exception as ex:
-    code = 9
-    for t, v in I.EXC.items():
-        if isinstance(ex, t): code = v
-    got = {"kind": 10 + code, "shape": [], "data": [], "note": "%%s: %%s" %% (type(ex).__name__, ex)}
-oracle = I.loop_oracle(case) if hasattr(I, "loop_oracle") else None
+model = json.loads(%(model)r)      # what the Coq model evaluates to (kind, shape, values), if modelled
+got, oracle, ok = I.check_case(case)
 exp = oracle if oracle is not None else model
-print("expression :", I.describe(case) if hasattr(I, "describe") else case["op"])
-print("expected   : kind", exp["kind"], "shape", exp["shape"], "values", exp["data"][:24], "(per-(e,p) loop on plain numpy arrays)" if oracle is not None else "(Coq model)")
-print("implementation: kind", got["kind"], "shape", got["shape"], "values", got["data"][:24], got.get("note", ""))
-def same(a, b):
-    if a["kind"] >= 10 and b["kind"] >= 10: return True
-    return a["kind"] == b["kind"] and list(a["shape"]) == list(b["shape"]) and [I.tofrac(x) for x in a["data"]] == [I.tofrac(x) for x in b["data"]]
-bad = not same(exp, got)
+print("expression :", I.describe(case))
+print("expected   : kind", exp["kind"], "shape", exp["shape"], exp.get("dtype", ""), "values", exp["data"][:24], "(per-(e,p) loop on plain numpy arrays)" if oracle is not None else "(Coq model)")
+print("implementation: kind", got["kind"], "shape", got["shape"], got.get("dtype", ""), "values", got["data"][:24], got.get("note", ""))
+bad = not I.same_any(exp, got, case)
 print("VIOLATION reproduces" if bad else "no violation")
 sys.exit(1 if bad else 0)
 '''
@@ -858,6 +946,40 @@ def real_field_spec(rng):
     return items
 
 
+def field_sweep_spec(rng):
+    """the (node, dof) sweep of the forms on the SAME Field objects: forms order (node-major, dof
+    fastest, u outer / w inner), then a scrambled order that revisits states"""
+    meshes = [("SEG2", [[0, 0, 0], [1, 0, 0], [2, 0, 0]], [[0, 1], [1, 2]], (1,)),
+              ("TRI3", [[0, 0, 0], [1, 0, 0], [0, 1, 0], [1, 1, 0]], [[0, 1, 2], [1, 3, 2]], (1, 2)),
+              ("QUAD4", [[0, 0, 0], [1, 0, 0], [1, 1, 0], [0, 1, 0]], [[0, 1, 2, 3]], (1, 2)),
+              ("TETRA4", [[0, 0, 0], [1, 0, 0], [0, 1, 0], [0, 0, 1]], [[0, 1, 2, 3]], (1, 3))]
+    items = []
+    for elem, coords, conn, dofs in meshes:
+        nPe = len(conn[0])
+        for dof_n in dofs:
+            single = [(n, d) for n in range(nPe) for d in range(dof_n)]
+            states = [(a[0], a[1], b[0], b[1]) for a in single[:3] for b in single]      # forms order
+            extra = [(rng.choice(single), rng.choice(single)) for _ in range(12)]
+            states += [(a[0], a[1], b[0], b[1]) for a, b in extra]
+            items.append({"elem": elem, "coords": coords, "connect": conn, "dof_n": dof_n, "states": states,
+                          "vec": [2.0, -4.0, 0.5], "mat": [[1.0, 2.0, 0.0], [0.0, 1.0, 3.0], [4.0, 0.0, 1.0]]})
+    return items
+
+
+SWEEP_REPLAY = r'''
+import json, sys
+from corr import C12_impl as I
+spec = json.loads(%(spec)r)
+res = I.field_sweep_checks(spec)
+for b in res["bad"][:6]:
+    print("Field %%s dof_n=%%d, step %%d, (node_u, dof_u, node_w, dof_w) = %%s: %%s" %% (b["elem"], b["dof_n"], b["step"], b["state"], b["op"]))
+    print("   implementation:", b.get("got", b.get("error")), " numpy on the field's Gauss-point values:", b["want"])
+print("%%d of %%d evaluations differ" %% (len(res["bad"]), res["checks"]))
+print("VIOLATION reproduces" if res["bad"] else "no violation")
+sys.exit(1 if res["bad"] else 0)
+'''
+
+
 # ---------------------------------------------------------------------------------------
 def correspondence(ctx, ncases, cap, per_file=400):
     gen = Gen(ctx.rng, cap)
@@ -868,7 +990,10 @@ def correspondence(ctx, ncases, cap, per_file=400):
     cases += [gen.case(ndirected + i) for i in range(ncases - ndirected)]
     ncases = len(cases)
     ctx.cov["corr_directed_cases"] = ndirected
-    req = {"cases": cases, "real_fields": real_field_spec(ctx.rng)}
+    ctx.cov["corr_scaled_twin_cases"] = sum(1 for c in cases if "scale_exp" in c)
+
+    sweep_spec = field_sweep_spec(ctx.rng)
+    req = {"cases": cases, "real_fields": real_field_spec(ctx.rng), "field_sweeps": sweep_spec}
     script = os.path.join(common.VERIF, "corr", "C12_impl.py")
     rc, out, err = ctx.impl_python(script, input=json.dumps(req), timeout=900)
     if rc != 0:
@@ -939,6 +1064,22 @@ def correspondence(ctx, ncases, cap, per_file=400):
     ctx.cov["real_field_operator_checks"] = len(resp.get("real_fields", []))
     ctx.obligation("corr:real-Field-operators", not rbad, "%d of %d disagree with operator(other, field())" % (len(rbad), len(resp.get("real_fields", []))),
                    n=max(1, len(resp.get("real_fields", []))))
+    sw = resp.get("field_sweeps") or {"checks": 0, "bad": [{"op": "harness", "elem": "-", "dof_n": 0, "step": 0, "state": [], "want": []}]}
+    ctx.cov["field_sweep_evaluations"] = sw["checks"]
+    ctx.obligation("corr:Field-(node,dof)-sweep", not sw["bad"], "%d of %d operator evaluations on swept Field objects differ from numpy on the Gauss-point values" % (len(sw["bad"]), sw["checks"]),
+                   n=max(1, sw["checks"]))
+    seen = set()
+    for b in sw["bad"]:
+        cls = ("evaluation" if b["op"] == "u()" else "field-field" if "w" in b["op"] else "matrix-product" if "@" in b["op"]
+               else "array-operand" if "cv" in b["op"] else "scalar-operand")
+        key = "field-sweep:%s:dof_n%d" % (cls, b["dof_n"])
+        if key in seen:
+            continue
+        seen.add(key)
+        item = [it for it in sweep_spec if it["elem"] == b["elem"] and it["dof_n"] == b["dof_n"]]
+        ctx.violation(key, "%s Field with dof_n=%d, after moving to (node, dof) state %s (step %d of the sweep on the same object): `%s` differs from numpy on the field's Gauss-point values" % (
+            b["elem"], b["dof_n"], b["state"], b["step"], b["op"]),
+            {"replay_py": SWEEP_REPLAY % {"spec": json.dumps(item)}, "first_mismatch": b}, found_input=True)
     report(ctx, cases, results, bad, rbad)
 
 
@@ -974,7 +1115,7 @@ def report(ctx, cases, results, bad, rbad):
     for key, c in reps.items():
         r = results[c["id"]]
         mv = (r.get("oracle") if r.get("oracle_ok") is False else None) or mvs.get(c["id"]) or {"kind": -1, "shape": [], "data": []}
-        cc = {k: v for k, v in c.items() if k not in ("coll", "model")}
+        cc = {k: v for k, v in c.items() if k not in ("coll", "model", "scale_exp")}
         snippet = REPLAY % {"case": json.dumps(cc), "model": json.dumps(mv)}
         prc, pout, perr = common.sh([common.PY, "-c", snippet], timeout=120, cwd=ctx.build,
                                     env={"PYTHONPATH": ctx.repo + os.pathsep + common.VERIF, "MPLBACKEND": "Agg"})
@@ -1038,35 +1179,48 @@ def run(ctx):
         ctx.obligation("translate", True, json.dumps(info))
         ctx.cov["translated"] = info
         open(os.path.join(ctx.build, "Gen_Linalg.v"), "w").write(gen)
-        ctx.copy_props("C12/C12_linalg.v", "C12/C12_theorems.v", "C12/C12_field.v")
-        r1 = ctx.coq(["Gen_Linalg.v", "C12_linalg.v"], timeout=900)
-        r2 = ctx.coq(["C12_theorems.v"], timeout=900)
-        failed += [r for r in (r1, r2) if not r.ok]
-        if r1.ok:
-            ctx.copy_props("C12/C12_detn.v")
-            r5 = ctx.coq(["C12_detn.v"], timeout=600)
-            if not r5.ok:
-                failed.append(r5)
-        try:
-            open(os.path.join(ctx.build, "Gen_TensorProd.v"), "w").write(T_lin.generate_tensorprod(ctx.repo))
-            ctx.copy_props("C12/C12_tensorprod.v")
-            r4 = ctx.coq(["Gen_TensorProd.v", "C12_tensorprod.v"], timeout=300)
-            if not r4.ok:
-                failed.append(r4)
-        except (TranslateError, SyntaxError, OSError) as ex:
-            ctx.obligation("translate:TensorProd", False, str(ex))
-            ctx.violation("translate:TensorProd", "translator rejected TensorProd: %s" % ex, {"construct": str(ex)}, found_input=False)
-        try:
-            genf, finfo = T_fld.generate(ctx.repo)
-            ctx.obligation("translate:_field.py", True, json.dumps(finfo))
-            ctx.cov["translated_field"] = finfo
-            open(os.path.join(ctx.build, "Gen_Field.v"), "w").write(genf)
-            r3 = ctx.coq(["Gen_Field.v", "C12_field.v"], timeout=300)
-            if not r3.ok:
-                failed.append(r3)
-        except (TranslateError, SyntaxError, OSError) as ex:
-            ctx.obligation("translate:_field.py", False, str(ex))
-            ctx.violation("translate:_field.py", "translator rejected _field.py: %s" % ex, {"construct": str(ex)}, found_input=False)
+        ctx.copy_props("C12/C12_linalg.v", "C12/C12_theorems.v", "C12/C12_field.v", "C12/C12_detn.v", "C12/C12_tensorprod.v")
+        r0 = ctx.coq(["Gen_Linalg.v"], timeout=300)       # the case files and two theorem files need it
+        if not r0.ok:
+            failed.append(r0)
+
+        # the theorem files are independent of each other: compile the groups side by side (<= 3 coqc)
+        def grp_linalg():
+            if not r0.ok:
+                return []
+            ra = ctx.coq(["C12_linalg.v"], timeout=900)
+            rb = ctx.coq(["C12_detn.v"], timeout=600)
+            return [r for r in (ra, rb) if not r.ok]
+
+        def grp_theorems():
+            r = ctx.coq(["C12_theorems.v"], timeout=900)
+            return [] if r.ok else [r]
+
+        def grp_tp_field():
+            bad = []
+            try:
+                open(os.path.join(ctx.build, "Gen_TensorProd.v"), "w").write(T_lin.generate_tensorprod(ctx.repo))
+                r4 = ctx.coq(["Gen_TensorProd.v", "C12_tensorprod.v"], timeout=300)
+                if not r4.ok:
+                    bad.append(r4)
+            except (TranslateError, SyntaxError, OSError) as ex:
+                ctx.obligation("translate:TensorProd", False, str(ex))
+                ctx.violation("translate:TensorProd", "translator rejected TensorProd: %s" % ex, {"construct": str(ex)}, found_input=False)
+            try:
+                genf, finfo = T_fld.generate(ctx.repo)
+                ctx.obligation("translate:_field.py", True, json.dumps(finfo))
+                ctx.cov["translated_field"] = finfo
+                open(os.path.join(ctx.build, "Gen_Field.v"), "w").write(genf)
+                r3 = ctx.coq(["Gen_Field.v", "C12_field.v"], timeout=300)
+                if not r3.ok:
+                    bad.append(r3)
+            except (TranslateError, SyntaxError, OSError) as ex:
+                ctx.obligation("translate:_field.py", False, str(ex))
+                ctx.violation("translate:_field.py", "translator rejected _field.py: %s" % ex, {"construct": str(ex)}, found_input=False)
+            return bad
+        with ThreadPoolExecutor(max_workers=3) as ex:
+            for bad in ex.map(lambda g: g(), [grp_linalg, grp_theorems, grp_tp_field]):
+                failed += bad
         for r in failed:
             ctx.log("proof obligations broke in %s" % r.failed_file)
         ctx.sample({"theorem": "C12_elementwise_pointwise", "statement": "forall V vbin op a c Ne nPg s, shape a = Ne::nPg::s -> (np_bcast s (shape c) = Some u -> fe op plain and plain op fe are FeArrays of shape Ne::nPg::u with res[e,p,K] = op(a[e,p,K|s], c[K|t]) in the written order) /\\ (None -> ValueError)", "assumptions": "closed under the global context"})
